@@ -121,7 +121,7 @@ func c19(c *wk.Ctx) {
 	}
 	defer teardown()
 	n := 0
-	c.Cases("round", c.Pick(120, 20000), func(i int, rng *rand.Rand) {
+	c.Cases("round", c.Pick(480, 20000), func(i int, rng *rand.Rand) {
 		if w == nil || n%30 == 0 {
 			teardown()
 			var err error
